@@ -1,10 +1,10 @@
 package checks
 
 import (
-	"math"
-	"unicode/utf8"
 	"bytes"
+	"math"
 	"testing"
+	"unicode/utf8"
 
 	"github.com/ipld/go-ipld-prime/codec/dagjson"
 	"github.com/ipld/go-ipld-prime/node/basicnode"
